@@ -302,6 +302,28 @@ example : ∃ h', SqiGen.Sponge.shake256.run SqiGen.Keccak.keccakF 1000 (List.re
     (List.replicate 200 9) 1 2 3 (by simp [SqiGen.Sponge.shake256.tlen]) List.length_replicate (by simp only [List.length_replicate]; omega)
     (by simp only [List.length_cons, List.length_nil]; omega)
 
+/-- the exported `SHAKE256(output, outputByteLen, input, inputByteLen)` (what `hash_to_challenge` and the library call), as
+    re-extracted (forward to the generated one-shot `shake256`, argument order from the C text): writes FIPS 202 SHAKE256(msg)
+    truncated to the requested length and nothing else -/
+theorem gen_SHAKE256_eq_spec (fuel : Nat) (h : List UInt8) (hoff outlen : Nat) (msg : List UInt8)
+    (s0 : Fips202.State) (t0 : List UInt8) (ia : Nat) (ta : List UInt8) (iq1 iq2 ic : Nat)
+    (ht0 : t0.length = SqiGen.Sponge.shake256.tlen) (hta : ta.length = 200) (hl : hoff + outlen ≤ h.length)
+    (hf : msg.length + outlen + 200 < fuel) :
+    ∃ h', SqiGen.Sponge.SHAKE256.run SqiGen.Keccak.keccakF fuel h hoff outlen msg msg.length s0 t0 ia ta iq1 iq2 ic = some h' ∧
+      SqiProofs.SpongeGen.Written h h' hoff outlen (Fips202.shake256 msg outlen) :=
+  gen_shake256_oneshot_eq_spec fuel h hoff outlen msg s0 t0 ia ta iq1 iq2 ic ht0 hta hl hf
+
+/-- the exported `SHAKE128(output, outputByteLen, input, inputByteLen)` (what `hash_to_challenge` and the library call), as
+    re-extracted (forward to the generated one-shot `shake128`, argument order from the C text): writes FIPS 202 SHAKE128(msg)
+    truncated to the requested length and nothing else -/
+theorem gen_SHAKE128_eq_spec (fuel : Nat) (h : List UInt8) (hoff outlen : Nat) (msg : List UInt8)
+    (s0 : Fips202.State) (t0 : List UInt8) (ia : Nat) (ta : List UInt8) (iq1 iq2 ic : Nat)
+    (ht0 : t0.length = SqiGen.Sponge.shake128.tlen) (hta : ta.length = 200) (hl : hoff + outlen ≤ h.length)
+    (hf : msg.length + outlen + 200 < fuel) :
+    ∃ h', SqiGen.Sponge.SHAKE128.run SqiGen.Keccak.keccakF fuel h hoff outlen msg msg.length s0 t0 ia ta iq1 iq2 ic = some h' ∧
+      SqiProofs.SpongeGen.Written h h' hoff outlen (Fips202.shake128 msg outlen) :=
+  gen_shake128_oneshot_eq_spec fuel h hoff outlen msg s0 t0 ia ta iq1 iq2 ic ht0 hta hl hf
+
 /-- the incremental API (`shake256_inc_init/absorb/finalize/squeeze`), for any chunking of the message and any split
     of the output request, produces FIPS 202 SHAKE256 of the concatenation, truncated to the total request -/
 theorem shake256_inc_eq_spec (chunks : List (List UInt8)) (reqs : List Nat) :
